@@ -30,6 +30,8 @@ impl ThreadPark {
             let dl = dur.map(|d| h.now_ns().saturating_add(d.as_nanos().min(u64::MAX as u128) as u64));
             crate::verif::event("tpark.enter", self as *const _ as u64, 0);
             let woken = h.block(self as *const _ as usize, dl);
+            // must clear the status
+            h.clear(self as *const _ as usize);
             crate::verif::event("tpark.leave", self as *const _ as u64, woken as u64);
             return if woken { Ok(()) } else { Err(ParkError::Timeout) };
         }
